@@ -111,13 +111,13 @@ func payload(k, i, size int) []byte {
 }
 
 type tearResult struct {
-	raw     []byte
-	frames  [][2]interface{} // (channel, payload)
-	cseqs   []int
-	labels  []string // expected chunk labels in order
-	sched   string
-	l0, l1  []string
-	err     string
+	raw    []byte
+	frames [][2]interface{} // (channel, payload)
+	cseqs  []int
+	labels []string // expected chunk labels in order
+	sched  string
+	l0, l1 []string
+	err    string
 }
 
 func transportFor(ch int, ctl bool) string {
@@ -757,21 +757,29 @@ func runBConn(c *Ctx) {
 		b.WriteString("c13 bconn 8192")
 		var all []byte
 		seq := byte(1)
-		for _, op := range k.ops {
-			if op == 0 {
-				bcn.Flush()
-				fmt.Fprintf(&b, " F %d %d", rc.buf.Len(), bcn.Buffered())
-				continue
+		func() {
+			defer func() {
+				if r := recover(); r != nil { // a panic of the implementation is an outcome, not a harness crash
+					b.WriteString(" W 1 -1 -1")
+					c.Find(Finding{Kind: "oracle", Class: "buffered-conn-panic", Case: fmt.Sprintf("c13 bconnops %d %s", k.rate, strings.Trim(fmt.Sprint(k.ops), "[]")), Impl: fmt.Sprint("panic: ", r), Spec: "Write/Flush never panic"})
+				}
+			}()
+			for _, op := range k.ops {
+				if op == 0 {
+					bcn.Flush()
+					fmt.Fprintf(&b, " F %d %d", rc.buf.Len(), bcn.Buffered())
+					continue
+				}
+				p := make([]byte, op)
+				for j := range p {
+					p[j] = seq
+					seq++
+				}
+				all = append(all, p...)
+				bcn.Write(p)
+				fmt.Fprintf(&b, " W %d %d %d", op, rc.buf.Len(), bcn.Buffered())
 			}
-			p := make([]byte, op)
-			for j := range p {
-				p[j] = seq
-				seq++
-			}
-			all = append(all, p...)
-			bcn.Write(p)
-			fmt.Fprintf(&b, " W %d %d %d", op, rc.buf.Len(), bcn.Buffered())
-		}
+		}()
 		lines = append(lines, b.String())
 		obs = append(obs, obsT{append([]byte(nil), rc.buf.Bytes()...), all})
 	}
